@@ -47,6 +47,31 @@ Theorem C15_challenge_never_ends_exchange : forall H HMAC hsize precis id s msg 
 Proof. exact scram_challenge_never_nil. Qed.
 Print Assumptions C15_challenge_never_ends_exchange.
 
+(* ---- several dialogues in one process ----
+   T1: nothing outside the scramAuth value carries over (no package-level variable in internal/pbkdf2, none of package smtp
+   assigned by a scramAuth method, reset() only assigns fields and does not write through the old slices), so a dialogue
+   is a function of its scramAuth value, the oracle and the replies - as in the model, where derivations are pure *)
+Theorem C15_source_no_cross_dialogue_state :
+  Gen.pbkdf2_package_vars = [] /\ Gen.scram_package_var_writes = [] /\ Gen.scram_reset_only_assigns_fields = true.
+Proof. exact gen_no_cross_dialogue_state. Qed.
+Print Assumptions C15_source_no_cross_dialogue_state.
+
+(* and every dialogue of every sequence of dialogues - fresh or reused values in any state, any remainder of the randomness
+   oracle - satisfies the single-dialogue statement below *)
+Theorem C15_every_dialogue_of_a_sequence :
+  forall (H : bytes -> bytes) (HMAC : bytes -> bytes -> bytes) (hsize : nat) (precis : bytes -> option bytes)
+         (id : scram_id) (lad a0 : bool) (ds : list (scram_state * list bytes * list reply)),
+    Forall (fun d => Forall (fun r => is_nil r = false) (snd (fst d))) ds ->
+    Forall (fun d =>
+      let f := auth (scram_mech H HMAC hsize precis gen_scram_cfg id) lad a0 (fst (fst d), snd (fst d)) (snd d) in
+      f_res f = ASuccess ->
+      (exists l0 e tail t3 m rest,
+          snd d = l0 ++ Reply code_challenge e :: tail ++ Reply code_success m :: rest /\
+          RunningExchange HMAC hsize precis id (snd (fst d)) (o_sent (f_out f)) l0 e tail t3)
+      \/ (exists m rest, snd d = Reply code_success m :: rest)) ds.
+Proof. exact scram_every_dialogue_authenticated. Qed.
+Print Assumptions C15_every_dialogue_of_a_sequence.
+
 (* For every reply script: success implies that the script has the shape
      l0 ++ [empty challenge e] ++ tail ++ [success reply] ++ rest
    where [tail] contains NO further empty challenge (the exchange started by [e] is the one RUNNING when the success reply
@@ -118,6 +143,7 @@ Definition ex_key (pass : bytes) : bytes := hmac_sha256 (Hi hmac_sha256 pass (bs
 Definition ex_params : srv_params :=
   {| sp_salt := bs "saltSALTsalt"; sp_iter := 2; sp_server_key := ex_key (bs "pencil");
      sp_other_key := ex_key (bs "wrong-password"); sp_empty_key := hmac_sha256 [] (bs "Server Key");
+     sp_zero_key := hmac_sha256 (repeat 0 32) (bs "Server Key");
      sp_nonce := bs "srvNONCE" |}.
 Definition ex_rands : list bytes := [repeat 7 24; repeat 9 24].
 
